@@ -199,6 +199,7 @@ func (p *Poller) Polling(callback PollEventHandler) error {
 
 // AddReadWrite registers the given file descriptor with readable and writable events to the poller.
 func (p *Poller) AddReadWrite(pa *PollAttachment, edgeTriggered bool) error {
+	vhook.Sys("p.ctl.AddReadWrite", p, pa.FD, 0, nil)
 	var ev uint32 = ReadWriteEvents
 	if edgeTriggered {
 		ev |= unix.EPOLLET | unix.EPOLLRDHUP
@@ -209,6 +210,7 @@ func (p *Poller) AddReadWrite(pa *PollAttachment, edgeTriggered bool) error {
 
 // AddRead registers the given file descriptor with readable event to the poller.
 func (p *Poller) AddRead(pa *PollAttachment, edgeTriggered bool) error {
+	vhook.Sys("p.ctl.AddRead", p, pa.FD, 0, nil)
 	var ev uint32 = ReadEvents
 	if edgeTriggered {
 		ev |= unix.EPOLLET | unix.EPOLLRDHUP
@@ -219,6 +221,7 @@ func (p *Poller) AddRead(pa *PollAttachment, edgeTriggered bool) error {
 
 // AddWrite registers the given file descriptor with writable event to the poller.
 func (p *Poller) AddWrite(pa *PollAttachment, edgeTriggered bool) error {
+	vhook.Sys("p.ctl.AddWrite", p, pa.FD, 0, nil)
 	var ev uint32 = WriteEvents
 	if edgeTriggered {
 		ev |= unix.EPOLLET | unix.EPOLLRDHUP
@@ -229,6 +232,7 @@ func (p *Poller) AddWrite(pa *PollAttachment, edgeTriggered bool) error {
 
 // ModRead modifies the given file descriptor with readable event in the poller.
 func (p *Poller) ModRead(pa *PollAttachment, edgeTriggered bool) error {
+	vhook.Sys("p.ctl.ModRead", p, pa.FD, 0, nil)
 	var ev uint32 = ReadEvents
 	if edgeTriggered {
 		ev |= unix.EPOLLET | unix.EPOLLRDHUP
@@ -239,6 +243,7 @@ func (p *Poller) ModRead(pa *PollAttachment, edgeTriggered bool) error {
 
 // ModReadWrite modifies the given file descriptor with readable and writable events in the poller.
 func (p *Poller) ModReadWrite(pa *PollAttachment, edgeTriggered bool) error {
+	vhook.Sys("p.ctl.ModReadWrite", p, pa.FD, 0, nil)
 	var ev uint32 = ReadWriteEvents
 	if edgeTriggered {
 		ev |= unix.EPOLLET | unix.EPOLLRDHUP
@@ -249,5 +254,6 @@ func (p *Poller) ModReadWrite(pa *PollAttachment, edgeTriggered bool) error {
 
 // Delete removes the given file descriptor from the poller.
 func (p *Poller) Delete(fd int) error {
+	vhook.Sys("p.ctl.Delete", p, fd, 0, nil)
 	return os.NewSyscallError("epoll_ctl del", unix.EpollCtl(p.fd, unix.EPOLL_CTL_DEL, fd, nil))
 }
